@@ -455,10 +455,94 @@ func c02ErrorValuedReturn(r *sim.Run, which int) {
 	}
 }
 
+// c02NilValuedReturn: a body that returns normally with a nil value of a nilable result type (pointer, slice, map, func,
+// interface, error as a VALUE) and no error has returned normally: the result is a Success holding that nil.
+func c02NilValuedReturn(r *sim.Run) {
+	r.Case = "panic-capture"
+	names := [...]string{"try.Of[*int]", "try.Call[*int]", "try.Call[[]int]", "try.Call[map]", "try.Call[any]", "try.Call[func]", "try.Call[error as value]",
+		"try.CallUnit", "future.Apply[*int]", "future.Apply2[*int]", "future.Apply2[any]", "try.Of[[]int]"}
+	which := r.Choose(len(names), "nilValued")
+	r.MixFingerprintS("nil-valued:" + names[which])
+	sim.NoteCase("C02 nil-valued " + names[which])
+	r.Probe("nil-valued-normal-returns")
+	bad := func(desc string) {
+		r.Violate("normal-return-turned-failure", "%s with a body that returns a nil value (and no error) gave %s, want a Success holding nil", names[which], desc)
+	}
+	judge := func(ok, isNil bool, desc string) {
+		if !ok || !isNil {
+			bad(desc)
+		}
+	}
+	switch which {
+	case 0:
+		t := try.Of(func() *int { return nil })
+		judge(t.IsSuccess(), t.OrZero() == nil, fmt.Sprint(t))
+	case 1:
+		t := try.Call(func() (*int, error) { return nil, nil })
+		judge(t.IsSuccess(), t.OrZero() == nil, fmt.Sprint(t))
+	case 2:
+		t := try.Call(func() ([]int, error) { return nil, nil })
+		judge(t.IsSuccess(), t.OrZero() == nil, fmt.Sprint(t))
+	case 3:
+		t := try.Call(func() (map[string]int, error) { return nil, nil })
+		judge(t.IsSuccess(), t.OrZero() == nil, fmt.Sprint(t))
+	case 4:
+		t := try.Call(func() (any, error) { return nil, nil })
+		judge(t.IsSuccess(), t.OrZero() == nil, fmt.Sprint(t))
+	case 5:
+		t := try.Call(func() (func(), error) { return nil, nil })
+		judge(t.IsSuccess(), t.OrZero() == nil, fmt.Sprint(t.IsSuccess()))
+	case 6:
+		t := try.Call(func() (error, error) { return nil, nil })
+		judge(t.IsSuccess(), t.OrZero() == nil, fmt.Sprint(t))
+	case 7:
+		t := try.CallUnit(func() error { return nil })
+		judge(t.IsSuccess(), true, fmt.Sprint(t))
+	case 11:
+		t := try.Of(func() []int { return nil })
+		judge(t.IsSuccess(), t.OrZero() == nil, fmt.Sprint(t))
+	default:
+		ex := &execSet{run: r}
+		ctx := ex.ctx(r.Choose(exKinds, "ex"))
+		var fpn fp.Future[*int]
+		var fa fp.Future[any]
+		r.Go("caller", func(t *sim.Task) {
+			switch which {
+			case 8:
+				fpn = future.Apply(func() *int { return nil }, ctx...)
+			case 9:
+				fpn = future.Apply2(func() (*int, error) { return nil, nil }, ctx...)
+			default:
+				fa = future.Apply2(func() (any, error) { return nil, nil }, ctx...)
+			}
+		})
+		r.RunToQuiescence()
+		if r.Failed() {
+			return
+		}
+		if which == 10 {
+			if !fa.IsCompleted() {
+				r.Violate("apply-not-completed", "%s: the future never completed", names[which])
+				return
+			}
+			judge(fa.Value().IsSuccess(), fa.Value().OrZero() == nil, fmt.Sprint(fa.Value()))
+		} else {
+			if !fpn.IsCompleted() {
+				r.Violate("apply-not-completed", "%s: the future never completed", names[which])
+				return
+			}
+			judge(fpn.Value().IsSuccess(), fpn.Value().OrZero() == nil, fmt.Sprint(fpn.Value()))
+		}
+	}
+}
+
 func c02Panics(r *sim.Run) {
 	r.Case = "panic-capture"
 	if w := r.Choose(12, "errorValued"); w < 4 {
 		c02ErrorValuedReturn(r, w)
+		return
+	} else if w < 7 {
+		c02NilValuedReturn(r)
 		return
 	}
 	kind := r.Choose(10, "panicKind")
